@@ -96,6 +96,10 @@ def cmd_run(name, tier="quick", pids=None):
     assert out.strip() == "", "/repo is dirty: %s" % out
     rc, out = sh("git -C /repo apply --whitespace=nowarn %s/patch.diff || git -C /repo apply --3way --whitespace=nowarn %s/patch.diff" % (d, d))
     results = {}
+    saved = {}
+    for pid in pids:  # a run against a seeded change must not leave ITS evidence behind
+        ep = os.path.join(ROOT, "evidence", "%s.json" % pid)
+        saved[ep] = open(ep).read() if os.path.exists(ep) else None
     try:
         assert rc == 0, out
         for pid in pids:
@@ -109,6 +113,11 @@ def cmd_run(name, tier="quick", pids=None):
     finally:
         sh("git -C /repo reset -q HEAD; git -C /repo checkout -- .")
         sh("rm -rf /verif/cases")
+        for ep, txt in saved.items():
+            if txt is not None:
+                open(ep, "w").write(txt)
+            elif os.path.exists(ep):
+                os.remove(ep)
     meta.setdefault("checks", {})
     for pid, r in results.items():
         meta["checks"]["%s/%s" % (pid, tier)] = r
